@@ -2,9 +2,11 @@ package worldp
 
 import (
 	"bytes"
+	"context"
 	"errors"
 	"fmt"
 	"math"
+	"os"
 	"path"
 	"strings"
 	"time"
@@ -106,7 +108,7 @@ func c14Plans(tier string) []core.Trace {
 // Caller-side cancellation (random runs only; planned scripts use mode 0): 0-3 the context is
 // never cancelled; 4 it is cancelled while the first commit request is in flight; 5 while the
 // second attempt's workspace is being created; 6 during the first manifest write.
-const c14CancelModes = 11 // 7, 8: two version-control back ends (runC14Multi); 9, 10: a snapshot-mode submission
+const c14CancelModes = 12 // 11: a concurrent writer takes the very file name (runC14SameName); 7, 8: two version-control back ends (runC14Multi); 9, 10: a snapshot-mode submission
 
 type c14Script struct {
 	runaway    bool
@@ -211,10 +213,59 @@ func c14CommitRepr(r *core.Run) func(int) any {
 	}
 }
 
+// runC14SameName: while the first attempt is under way, somebody else commits an endorsement under
+// the very file name this submission is about to use (the default name, say), with its manifest
+// entry. The submission has no --overwrite. Its first commit conflicts; the attempt that follows
+// starts from a fresh workspace, finds the name taken and must leave the other writer's file alone.
+func runC14SameName(r *core.Run) {
+	a := worlda.NewAuthority(r, worlda.Config{KM: "memkm", CA: "memca"}, seams.NewPlanNone(r))
+	if err, _ := a.Bootstrap(worlda.BootArgs{}); err != nil {
+		r.HarnessErr = "bootstrap: " + err.Error()
+		return
+	}
+	vcs := seams.NewSimVCS(r, "/release")
+	manifest := "/release/out/" + endorse.ManifestFile
+	theirs := []byte("the other writer's endorsement of another firmware")
+	at := []string{"ReadFile", "WriteOrCreateFiles", "SetBinaryWritable", "TryCommit"}[r.Intn(4, "writer-lands-before")]
+	landed := false
+	vcs.Between = func(site string, ws int) {
+		if landed || ws != 1 || site != at {
+			return
+		}
+		landed = true
+		m := &rpb.VMEndorsementMap{Entries: []*rpb.VMEndorsementMap_Entry{{Digest: bytes.Repeat([]byte{0xB7}, 48), Path: "c14.binarypb"}}}
+		txt, _ := prototext.Marshal(m)
+		r.Fault("concurrent-commit", "same file name, before %s of attempt 1", site)
+		vcs.ExternalCommit(map[string][]byte{manifest: txt, "/release/out/c14.binarypb": theirs})
+	}
+	budget := 1 + r.Intn(3, "same-name-budget")
+	q := Req{Image: images.Pool()[0], OutDir: "out", Candidate: "c14", SNP: true, LaunchVmsas: 2, ClSpec: 7, Timestamp: a.Now, Retries: budget}
+	_, err := Endorse(r, a, vcs, q, "")
+	vcs.Between = nil
+	r.Eval(r.Fingerprint(), landed)
+	r.Probe("same-name-concurrent-writer")
+	if !landed {
+		return
+	}
+	if now := vcs.Head["/release/out/c14.binarypb"]; !bytes.Equal(now, theirs) {
+		r.Fail("stale-manifest-lost-update", "overwrote-concurrent-file", "budget %d, result %v: another writer committed c14.binarypb while the first attempt was under way; without --overwrite the file is theirs to keep, yet head now holds %d other bytes", budget, err, len(now))
+	}
+	if got, perr := manifestPaths(vcs.Head[manifest]); perr != nil || got["c14.binarypb"] != fmt.Sprintf("%x", bytes.Repeat([]byte{0xB7}, 48)) {
+		r.Fail("stale-manifest-lost-update", "entry-dropped", "budget %d, result %v: the other writer's manifest entry for c14.binarypb was dropped or rewritten (%v)", budget, err, perr)
+	}
+	if err == nil {
+		r.Fail("success-misreported", "same-name", "budget %d: success was reported although the file name was taken by another writer and --overwrite was not given", budget)
+	}
+}
+
 func runC14(r *core.Run) {
 	cancelMode := r.Intn(c14CancelModes, "cancel")
 	if cancelMode == 7 || cancelMode == 8 {
 		runC14Multi(r)
+		return
+	}
+	if cancelMode == 11 {
+		runC14SameName(r)
 		return
 	}
 	budget := c14Budgets[r.Intn(len(c14Budgets), "budget")]
@@ -236,11 +287,13 @@ func runC14(r *core.Run) {
 	// way (a permanent "permission denied" around a transient RPC error; a retriable conflict around
 	// a plain error): the back end speaks for its own error
 	if r.Chance(30, "errors-wrap-a-cause?") {
+		wrapKind := r.Intn(3, "wrapped-cause")
 		vcs.WrapCause = func(retriable bool) error {
 			if retriable {
 				return errors.New("rpc error: connection reset by peer")
 			}
-			return &seams.VCSError{Site: "transport", Retriable: true}
+			// (under a permanent error: a transient back-end error, or a plain timeout)
+			return []error{&seams.VCSError{Site: "transport", Retriable: true}, context.DeadlineExceeded, os.ErrDeadlineExceeded}[wrapKind]
 		}
 	}
 	startCalls, startSpaces := len(vcs.Calls), len(vcs.Spaces)
